@@ -92,19 +92,37 @@ def bnode_structure(draw, max_nodes=10, pre="n"):
     """triples over blank nodes from a symmetric family or a random bnode graph; 1-2 predicates; directed or symmetric edges;
     optional identical decorations (ground triples hanging off every node) which keep the symmetry."""
     preds = [["u", "urn:p"], ["u", "urn:q"]]
-    if draw(st.integers(0, 3)) == 0:
+    shape = draw(st.integers(0, 8))
+    extra = []
+    if shape <= 1:
         n = draw(st.integers(1, min(6, max_nodes)))
         edges = draw(st.lists(st.tuples(st.integers(0, n - 1), st.integers(0, n - 1)), max_size=2 * n))
         name = "random"
+    elif shape in (2, 8):
+        # two relations over the same nodes, each a permutation: every node has one edge in and one out per predicate, so colour
+        # refinement alone cannot split anything and the search over individualisations decides
+        n = draw(st.integers(3, min(8, max_nodes)))
+        edges = list(enumerate(draw(st.permutations(range(n)))))
+        extra = list(enumerate(draw(st.permutations(range(n)))))
+        name = "two-permutations"
+    elif shape == 3:
+        # a symmetric family on one predicate overlaid with a few edges of the other predicate on the same nodes
+        name, edges = draw(symmetric_edges(max_nodes))
+        ns = sorted({x for e in edges for x in e})
+        extra = draw(st.lists(st.tuples(st.sampled_from(ns), st.sampled_from(ns)), min_size=1, max_size=len(ns))) if ns else []
+        name = "overlay"
     else:
         name, edges = draw(symmetric_edges(max_nodes))
-    both = draw(st.booleans())
+    both = draw(st.booleans()) and name != "two-permutations"
     triples = []
-    p = preds[draw(st.integers(0, 1))]
+    k = draw(st.integers(0, 1))
+    p = preds[k]
     for a, b in edges:
         triples.append([B(a, pre), p, B(b, pre)])
         if both:
             triples.append([B(b, pre), p, B(a, pre)])
+    for a, b in extra:
+        triples.append([B(a, pre), preds[1 - k], B(b, pre)])
     deco = draw(st.integers(0, 3))
     nodes = sorted({x for e in edges for x in e})
     if deco == 1:
